@@ -34,7 +34,7 @@ func init() {
 			"non-trivial = histories in which calls on different measurements actually overlapped in time (call/return sequence numbers from one atomic counter); distinct = (validators, source, vmsas, goroutines, GOMAXPROCS, overlap class) cells",
 		Assumptions: []string{"interleavings are whatever the Go scheduler produces; the race detector needs only two unordered accesses, the behavioural oracle needs the bad interleaving",
 			"validators are created before the goroutines start (C09 quantifies over invocations, not creation)"},
-		ShardsQuick: 4, ShardsThor: 8, TimeoutS: 900, TimeoutThor: 3600, Run: run,
+		ShardsQuick: 6, ShardsThor: 12, TimeoutS: 1800, TimeoutThor: 5400, Run: run,
 	})
 }
 
@@ -86,12 +86,12 @@ func run(c *core.Ctx) {
 	plF, _ := proto.MarshalOptions{Deterministic: true}.Marshal(gF)
 	rawF, _ := proto.Marshal(&epb.VMLaunchEndorsement{SerializedUefiGolden: plF, Signature: e.Signature})
 	inputs := []input{{0, "endorsed4", m4, raw}, {1, "endorsed8", m8, raw}, {2, "unendorsed", mk(0x55), raw}, {3, "unendorsed", make([]byte, 48), raw}, {4, "short", m4[:47], raw},
-		{5, "unendorsed", mk(0x56), raw}, {6, "endorsedB4", mB4, rawB}, {7, "unendorsed", mB4, raw}, {8, "forged-reusing-genuine-signature", mF, rawF}}
+		{5, "unendorsed", mk(0x56), raw}, {6, "endorsedB4", mB4, rawB}, {7, "unendorsed", mB4, raw}, {8, "forged-reusing-genuine-signature", mF, rawF}, {9, "unpublished", mk(0x99), raw}}
 	url := func(m []byte) string { return verify.GCETcbURL(extractsev.GCETcbObjectName(sev.GCEUefiFamilyID, m)) }
 	getter := func() *doubles.Getter {
 		a := map[string][]byte{}
 		for _, in := range inputs {
-			if len(in.m) == 48 {
+			if len(in.m) == 48 && in.kind != "unpublished" { // the bucket has no object for an unpublished measurement: Get fails
 				a[url(in.m)] = raw // the bucket answers with the same (genuine) endorsement for every name
 			}
 		}
@@ -232,7 +232,7 @@ func run(c *core.Ctx) {
 				if (gi%2 == 0) == (r.IntN(8) != 0) {
 					plans[gi] = append(plans[gi], []int{0, 1, 6}[r.IntN(3)])
 				} else {
-					plans[gi] = append(plans[gi], []int{2, 3, 4, 5, 7, 8}[r.IntN(6)])
+					plans[gi] = append(plans[gi], []int{2, 3, 4, 5, 7, 8, 9}[r.IntN(7)])
 				}
 			}
 		}
@@ -258,7 +258,24 @@ func run(c *core.Ctx) {
 			}(gi)
 		}
 		close(start)
-		wg.Wait()
+		// every call takes milliseconds; a history that makes no progress for minutes is stuck (e.g. a lock left held
+		// after a failed download). The wait is a watchdog for hangs only, generous enough for any machine load.
+		done := make(chan struct{})
+		go func() { wg.Wait(); close(done) }()
+		hung := false
+		select {
+		case <-done:
+		case <-time.After(2 * time.Minute):
+			hung = true
+		}
+		if hung {
+			runtime.GOMAXPROCS(old)
+			returned := seq.Load()
+			c.Violate(core.Violation{Kind: "oracle", Entry: "validator/" + cf.validators, Site: "validator-calls-never-returned", Gen: gname, Case: h,
+				Detail: fmt.Sprintf("%d goroutines were still blocked inside the validator after 2 minutes (sequence counter stopped at %d); in isolation every call returns at once", cf.gor, returned)})
+			c.End(h)
+			continue // the blocked goroutines are abandoned; the shared state of this history is not touched again
+		}
 		// successive phase on the same validators
 		var succ []callRec
 		for j := 0; j < 24; j++ {
